@@ -101,7 +101,7 @@ class C17(Check):
     def gen(self, seed: int, index: int, tier: str) -> dict[str, Any]:
         rng = rng_for(seed, "C17", index)
         plan: dict[str, Any] = {"prop": "C17", "index": index}
-        n = rng.choice([0, 1, 2, 5, 5, 20, 60, 300]) if index >= 8 else [0, 1, 2, 3, 5, 8, 13, 21][index]
+        n = rng.choice([0, 1, 2, 5, 5, 20, 60, 300] if tier == "quick" else [0, 1, 5, 60, 300, 1500]) if index >= 8 else [0, 1, 2, 3, 5, 8, 13, 21][index]
         plan["records"] = gen_records(rng, n)
         plan["trace_level"] = rng.random() < 0.5
         plan["pump"] = rng.choice(["eager", "lag", "lag", "never"])
